@@ -161,6 +161,15 @@ Theorem C07_load_empty : forall (T : Type) (NT : Num T) (e : engine T), load e [
 Proof. intros T NT. exact (@load_empty T). Qed.
 Print Assumptions C07_load_empty.
 
+(* loading a consequent that is already loaded REPLACES its conclusions (never extends them): a second load gives the
+   conclusions of a first load, whatever was there before; a failed load leaves the consequent unloaded *)
+Theorem C07_reload_replaces : forall (T : Type) (e : engine T) tokens previous,
+  (forall cs, load e tokens = Ok cs -> consequent_reload e tokens previous = (cs, None)) /\
+  (forall x, load e tokens = Err x -> consequent_reload e tokens previous = ([], Some x)) /\
+  consequent_reload e tokens (fst (consequent_reload e tokens previous)) = consequent_reload e tokens [].
+Proof. intros T e tokens previous. exact (conj (@reload_ok T e tokens previous) (conj (@reload_failed T e tokens previous) eq_refl)). Qed.
+Print Assumptions C07_reload_replaces.
+
 (* ===================================================================== F. non-vacuity *)
 (* the witness is what `load` produces from the rule text, it satisfies the hypotheses, and the numbers are 1/4, 1/2 *)
 Example C07_witness_loads : @load R w_engine w_tokens = Ok w_cs /\ w_cs <> [] /\ @wf R w_outs w_cs.
